@@ -310,8 +310,12 @@ func TestC01(t *testing.T) {
 
 	// ---- C (run first, emitted spread among the small cases). Free-running: real goroutines, no gating.
 	var frees []freeCfg
+	ncalls := 100 // quick: 64 x 100 (it was 64 x 200 until the last round: the quick tier must stay short on a busy machine)
+	if thorough() {
+		ncalls = 200
+	}
 	for i, p := range []int{1, 4, 16} {
-		frees = append(frees, freeCfg{p, 64, 200, 0, i%2 == 1, false, false, 0})
+		frees = append(frees, freeCfg{p, 64, ncalls, 0, i%2 == 1, false, false, 0})
 	}
 	frees = append(frees, freeCfg{16, 8, 100, 1, false, false, false, 0}, freeCfg{16, 8, 100, 2, true, false, false, 0})
 	// plain calls (no metadata, no deadline) over by-reference transports, one method per caller; callers with dead contexts
